@@ -297,6 +297,49 @@ pub fn c19(thorough: bool, stats: &mut Stats) -> Vec<Failure> {
     if capped > 0 {
         stats.machinery.insert(format!("wall-clock cap: {} scenarios stopped at the per-scenario cap of {} schedules", capped, cap), capped);
     }
-    // a free-running sweep over --num-threads (labelled as a sweep, not as exhaustive)
+    // a free-running sweep over --num-threads 1..=16 (labelled as a sweep, NOT as exhaustive: the OS schedules)
+    let reps = if thorough { 10 } else { 2 };
+    let sweep_next = AtomicUsize::new(0);
+    let sweep_fails: Mutex<Vec<Failure>> = Mutex::new(vec![]);
+    let sweep_runs = AtomicUsize::new(0);
+    let jobs: Vec<(usize, usize, usize)> = (0..scs.len()).filter(|i| thorough || i % 4 == 0).flat_map(|i| (1..=16usize).flat_map(move |nt| (0..reps).map(move |r| (i, nt, r)))).collect();
+    std::thread::scope(|s| {
+        for _ in 0..threads {
+            s.spawn(|| loop {
+                let k = sweep_next.fetch_add(1, Ordering::Relaxed);
+                if k >= jobs.len() {
+                    break;
+                }
+                let (i, nt, _r) = jobs[k];
+                let sc = &scs[i];
+                let mut argv = sc.argv.clone();
+                if let Some(p) = argv.iter().position(|a| a == "--num-threads") {
+                    argv[p + 1] = nt.to_string();
+                }
+                let o = cli::execute(500000 + k, &sc.tree, &Run { argv, ..Run::default() });
+                let mut files = BTreeMap::new();
+                for (p, v) in &o.after {
+                    if p.ends_with(".lua") {
+                        files.insert(p.clone(), v.0.clone());
+                    }
+                }
+                cli::cleanup(&o);
+                sweep_runs.fetch_add(1, Ordering::Relaxed);
+                if o.code != sc.want_code || files != sc.want_files {
+                    sweep_fails.lock().unwrap().push(cli::fail(
+                        "E3-C19",
+                        "thread-count-dependent-result",
+                        &sc.desc,
+                        format!("free-running with --num-threads {}: exit status {} (reference {}), files equal: {}", nt, o.code, sc.want_code, files == sc.want_files),
+                    ));
+                }
+            });
+        }
+    });
+    let _ = std::fs::remove_dir_all(cli::scratch_root());
+    let nsweep = sweep_runs.load(Ordering::Relaxed);
+    stats.transitions += nsweep;
+    stats.machinery.insert(format!("free-running sweep (not exhaustive): --num-threads 1..=16 x {} repetitions", reps), nsweep);
+    fails.extend(sweep_fails.into_inner().unwrap());
     fails
 }
